@@ -61,7 +61,7 @@ def build(src, config, extra_flags=(), tag=None, deps=(), libs=()):
     cfgs = load_configs()
     cfg = cfgs[config]
     cxx = cfg.get('cxx', 'g++')
-    flags = BASE_FLAGS + cfg.get('flags', []) + list(extra_flags)
+    flags = BASE_FLAGS + list(extra_flags) + cfg.get('flags', [])   # configuration flags last: they override per-driver defaults such as -O1
     srcp = os.path.join(VERIF, src)
     eng = sorted(glob.glob(os.path.join(VERIF, 'engine', '*.hpp'))) + [os.path.join(VERIF, d) for d in deps]
     key = hashlib.sha256((tree_hash() + file_hash([srcp] + eng) + cxx + ' '.join(flags) + REPO).encode()).hexdigest()[:16]
@@ -94,9 +94,9 @@ def build_many(jobs, workers=16):
         return [f.result() for f in futs]
 
 
-def run_driver(binary, prop, config, tier, known_ids, extra_args=(), threads=None, deadline=None, env=None):
+def run_driver(binary, prop, config, tier, known_ids, extra_args=(), threads=None, deadline=None, env=None, cap=None, quiet=False):
     os.makedirs(os.path.join(BUILD, 'out'), exist_ok=True)
-    out = os.path.join(BUILD, 'out', f'{os.path.basename(binary)}.{tier}.json')
+    out = os.path.join(BUILD, 'out', f'{os.path.basename(binary)}.{tier}{".cap" if cap else ""}.json')
     if os.path.exists(out):
         os.remove(out)
     cmd = [binary, '--tier', tier, '--out', out, '--config', config]
@@ -106,6 +106,10 @@ def run_driver(binary, prop, config, tier, known_ids, extra_args=(), threads=Non
         cmd += ['--threads', str(threads)]
     if deadline:
         cmd += ['--deadline', str(deadline)]
+    if cap:
+        cmd += ['--cap', str(cap)]
+    if quiet:
+        cmd += ['--quiet']
     cmd += list(extra_args)
     e = dict(os.environ)
     if env:
